@@ -7,7 +7,7 @@
     [POWER_SUFFIXES] = "", ^1, ^2, ^3, ^-1, ^-2, ^-3  (powers -3..3). *)
 From Coq Require Import ZArith Bool String List.
 Require Import NixV.Base.Prelude NixV.Gen.GenTables NixV.Units.UnitsModel NixV.Units.UnitsRegexProofs
-  NixV.Units.UnitsProofs NixV.Units.UnitsGrammarProofs.
+  NixV.Units.UnitsProofs NixV.Units.UnitsGrammarProofs NixV.Base.F64 NixV.Units.UnitsRoutes NixV.Units.UnitsRoutesProofs.
 Import ListNotations.
 Local Open Scope string_scope.
 Local Open Scope Z_scope.
@@ -181,6 +181,68 @@ Print Assumptions C18_scalable_meets_spec.
 Theorem C18_regex_match_spec : forall r s, regex_match r s = true <-> matches r s.
 Proof. exact regex_match_spec. Qed.
 Print Assumptions C18_regex_match_spec.
+
+(** ---- the other public routes of util.hpp that deal with units (model: Units/UnitsRoutes.v) ---- *)
+
+(** isScalable(vector, vector): symmetric, and true exactly for vectors of the same length that are scalable
+    element by element (with the string overload the theorems above are about). *)
+Theorem C18_isScalableVec_sym : forall a b v, isScalableVec a b = Ok v -> isScalableVec b a = Ok v.
+Proof. exact isScalableVec_sym. Qed.
+Print Assumptions C18_isScalableVec_sym.
+
+Theorem C18_isScalableVec_true : forall a b,
+  isScalableVec a b = Ok true <->
+  List.length a = List.length b /\ Forall2 (fun x y => isScalable x y = Ok true) a b.
+Proof. exact isScalableVec_true. Qed.
+Print Assumptions C18_isScalableVec_true.
+
+Theorem C18_isSetAtSamePos_spec : forall a b, isSetAtSamePos a b = spec_set_same a b.
+Proof. exact isSetAtSamePos_spec. Qed.
+Print Assumptions C18_isSetAtSamePos_spec.
+
+Theorem C18_isSetAtSamePos_sym : forall a b, isSetAtSamePos a b = isSetAtSamePos b a.
+Proof. exact isSetAtSamePos_sym. Qed.
+Print Assumptions C18_isSetAtSamePos_sym.
+
+(** convertToSeconds<T> / convertToKelvin<T> (T = double, int) scale a second / kelvin that carries SI prefix p by
+    10^(SI exponent of p): [CScaled v e] = v times the double getSIScaling returns for 10^e. *)
+Theorem C18_convertToSeconds_prefixed : forall p e, In (p, e) SI_PREFIX_EXP ->
+  (forall v, convertToSeconds_d (p ++ "s") v = Ok (CScaled v e)) /\
+  (forall n, convertToSeconds_i (p ++ "s") n = Ok (CScaled n e)).
+Proof. exact convertToSeconds_prefixed. Qed.
+Print Assumptions C18_convertToSeconds_prefixed.
+
+Theorem C18_convertToKelvin_prefixed : forall p e, In (p, e) SI_PREFIX_EXP ->
+  (forall v, convertToKelvin_d (p ++ "K") v = Ok (CScaled v e)) /\
+  (forall n, convertToKelvin_i (p ++ "K") n = Ok (CScaled n e)).
+Proof. exact convertToKelvin_prefixed. Qed.
+Print Assumptions C18_convertToKelvin_prefixed.
+
+(** splitCompoundUnit: every atom of the grammar alone, and followed by * or / and a second atom (no power, positive
+    power, negative power): the atoms come back, the one behind a slash with its power negated; the oracle agrees. *)
+Theorem C18_splitCompoundUnit_grammar : forall p u w b b', In p ALL_PREFIXES -> In u UNITS -> In w POWER_SUFFIXES ->
+  In (b, b') SECOND_ATOMS ->
+  splitCompoundUnit (print_unit p u w) = Ok [print_unit p u w] /\
+  splitCompoundUnit (print_unit p u w ++ "*" ++ b) = Ok [print_unit p u w; b] /\
+  splitCompoundUnit (print_unit p u w ++ "/" ++ b) = Ok [print_unit p u w; b'] /\
+  spec_split_compound (print_unit p u w) = Some [print_unit p u w] /\
+  spec_split_compound (print_unit p u w ++ "*" ++ b) = Some [print_unit p u w; b] /\
+  spec_split_compound (print_unit p u w ++ "/" ++ b) = Some [print_unit p u w; b'].
+Proof. exact splitCompoundUnit_grammar. Qed.
+Print Assumptions C18_splitCompoundUnit_grammar.
+
+Theorem C18_nameSanitizer_ok : forall s, nameCheck (nameSanitizer s) = true /\ (nameCheck s = true -> nameSanitizer s = s).
+Proof. exact nameSanitizer_ok. Qed.
+Print Assumptions C18_nameSanitizer_ok.
+
+Example C18_routes_nonvacuous :
+  isScalableVec ["mV"; "s"] ["kV"; "ms"] = Ok true /\ isScalableVec ["mV"; "s"] ["kV"; "mA"] = Ok false /\
+  isScalableVec ["mV"] ["kV"; "ms"] = Ok false /\ isSetAtSamePos ["mV"; ""] ["s"; ""] = true /\ isSetAtSamePos ["mV"; ""] [""; "s"] = false /\
+  splitCompoundUnit "mV^2/s" = Ok ["mV^2"; "s^-1"] /\ splitCompoundUnit "J/K*mol" = Ok ["J"; "K^-1"; "mol"] /\
+  splitCompoundUnit "mol^2/s^-2" = Ok ["mol^2"; "s^2"] /\
+  In ("m", -3) SI_PREFIX_EXP /\ convertToSeconds_i "ms" 1500 = Ok (CScaled 1500 (-3)) /\ convertToSeconds_i "h" 2 = Ok (CExact 7200) /\
+  convertToKelvin_i "C" 27 = Ok (CExact 300) /\ convertToKelvin_i "F" 212 = Ok (CExact 373) /\ convertToKelvin_i "kK" 2 = Ok (CScaled 2 3).
+Proof. vm_compute. intuition. Qed.
 
 (** ---- non-vacuity ---- *)
 Example C18_table_nonvacuous :
